@@ -20,15 +20,51 @@ def ctc_sets(names, depth):
     return trees
 
 
-def check_export(which, shape, cards, trees) -> list:
-    """[(key, message)] for one exported program."""
+# Name lists (identifier-like, none is a keyword of a target format or an operator name of the constraint
+# language): names that contain one another, that are pieces of the connective words, that differ by case
+# or by an underscore. The formats have no quoting for such names, so the exports must keep them apart.
+NAME_LISTS = [
+    ['GPS', 'GPS2', 'PS', 'G', 'GPS22', 'S2'],
+    ['a', 'n', 'd', 'an', 'nd', 'anda'],
+    ['o', 'r', 'no', 't', 'ot', 'nott'],
+    ['x', 'xx', 'xxx', 'xxxx', 'xxxxx', 'xxxxxx'],
+    ['A', 'a', 'Aa', 'aA', 'AA', 'aa'],
+    ['F1', 'F10', 'F100', 'F', 'F01', 'F0'],
+    ['F_0', '_F0', 'F0_', 'F__0', '_', '__'],
+    ['AND1', 'ORx', 'NOTa', 'XORb', 'IMPLIESc', 'xAND'],
+    ['and_', '_or', 'not_x', 'x_not', 'or_and', 'XOR_'],
+]
+SPLOT_ONLY_LISTS = [['a b', 'a  b', 'ab', 'a-b', 'a_b', 'a.b'], ['é', 'e', 'É', 'ée', 'e é', 'E']]
+
+
+def pick_names(which, code, n):
+    lists = NAME_LISTS + (SPLOT_ONLY_LISTS if which == 'splot' else [])
+    lst = lists[(code // 2) % len(lists)]
+    lst = lst[:n] if code % 2 == 0 else list(reversed(lst[:n]))
+    return lst
+
+
+def _ren(t, mp):
+    if isinstance(t, tuple):
+        return (t[0],) + tuple(_ren(x, mp) for x in t[1:])
+    return mp.get(t, t)
+
+
+def check_export(which, shape, cards, trees, names=None) -> list:
+    """[(key, message)] for one exported program. trees are written over F0..Fn; names renames them."""
     import z3
     n = R.n_features(shape)
-    names = ['F%d' % i for i in range(n)]
-    m = R.build(shape, cards, ctcs=[R.ctc('c%d' % i, t) for i, t in enumerate(trees)])
+    if names is None:
+        names = ['F%d' % i for i in range(n)]
+    else:
+        mp = {'F%d' % i: names[i] for i in range(n)}
+        trees = [_ren(t, mp) for t in trees]
+    m = R.build(shape, cards, names=names, ctcs=[R.ctc('c%d' % i, t) for i, t in enumerate(trees)])
     snap = R.snapshot(m)
     ctx = z3.Context()
     T, var = R.tree2z3(shape, cards, z3, ctx)
+    if len(set(names)) != n:
+        raise RuntimeError('names not distinct')
     env = {names[i]: var[i] for i in range(n)}
     C = [R.tree2z3_expr(t, env, z3, ctx) for t in trees]
     src = z3.And([T] + C, ctx)
@@ -44,6 +80,11 @@ def check_export(which, shape, cards, trees) -> list:
     except interp.FormatError as exc:
         return [('unreadable', '%s export is not a document of the target format: %s' % (which, exc))]
     out = []
+    if which == 'splot':     # an identifier the writer had to quote stands for the name inside the quotes
+        ivar = dict(ivar)
+        for nm in names:
+            if nm not in ivar and '"%s"' % nm in ivar:
+                ivar[nm] = ivar['"%s"' % nm]
     missing = [nm for nm in names if nm not in ivar]
     if missing:
         out.append(('feature-missing', '%s export lacks features %r' % (which, missing)))
@@ -77,19 +118,19 @@ def _ops(t):
     return o
 
 
-def replay_export(which, shape, cards, trees):
+def replay_export(which, shape, cards, trees, names=None):
     shape = totuple(shape)
     cards = [tuple(c) for c in cards]
     trees = [totuple(t) for t in trees]
     out = []
     try:
-        found = check_export(which, shape, cards, trees)
+        found = check_export(which, shape, cards, trees, names)
     except Exception as exc:
-        return ['%s export raises %s: %s (shape %s cards %r ctcs %r)' % (which, type(exc).__name__, exc, R.shape_str(shape), cards, trees)]
+        return ['%s export raises %s: %s (shape %s cards %r ctcs %r names %r)' % (which, type(exc).__name__, exc, R.shape_str(shape), cards, trees, names)]
     for key, msg in found:
         if known('C10', which + ':' + key):
             continue
-        out.append('%s [%s] shape %s cards %r ctcs %r' % (msg, key, R.shape_str(shape), cards, trees))
+        out.append('%s [%s] shape %s cards %r ctcs %r%s' % (msg, key, R.shape_str(shape), cards, trees, '' if names is None else ' names %r' % (names,)))
     return out
 
 
@@ -106,23 +147,27 @@ def batch_exports(which, max_n, lo, hi, seed, depth, per_model):
         names = ['F%d' % i for i in range(n)]
         pool = ctc_sets(names[:3], depth) if n >= 2 else []
         for cards in R.all_cards(shape):
-            cases = [[]]
+            cases = [([], None)]
             for _ in range(per_model if pool else 0):
-                cases.append([rnd.choice(pool) for _ in range(rnd.randint(1, 2))])
-            for trees in cases:
+                cases.append(([rnd.choice(pool) for _ in range(rnd.randint(1, 2))], None))
+            if n >= 2:      # the same programs over names that contain one another / pieces of connectives / case variants
+                cases.append(([], pick_names(which, rnd.randrange(1000), n)))
+                if pool and rnd.random() < 0.5:
+                    cases.append(([rnd.choice(pool)], pick_names(which, rnd.randrange(1000), n)))
+            for trees, nm in cases:
                 res['instances'] += 1
                 res['programs'] += 1
                 res['nontrivial'] += 1
                 res['native_runs'] += 1
-                bad = replay_export(which, shape, cards, trees)
+                bad = replay_export(which, shape, cards, trees, nm)
                 if bad:
                     res['disagreements_checked'] += 1
                     k = bad[0].split('[')[1].split(']')[0] if '[' in bad[0] else bad[0][:20]
                     if k in keys and len(res['violations']) >= 3:
                         continue
                     keys.add(k)
-                    res['violations'].append({'label': which + '-export', 'detail': bad[0], 'replay_func': 'replay_export', 'replay_args': [which, shape, cards, trees]})
-                res['sample'] = {'writer': which, 'shape': R.shape_str(shape), 'cards': cards, 'constraints': trees}
+                    res['violations'].append({'label': which + '-export', 'detail': bad[0], 'replay_func': 'replay_export', 'replay_args': [which, shape, cards, trees, nm]})
+                res['sample'] = {'writer': which, 'shape': R.shape_str(shape), 'cards': cards, 'constraints': trees, 'names': nm}
         if len(res['violations']) >= 8:
             break
     return res
@@ -167,7 +212,7 @@ WITNESSES = {}
 def info(tier):
     return {
         'assumptions': ['each export is a program; its meaning is given by the independent interpreters in fmverif/props/interp.py (SXFM tree/group lines + CNF clauses; .exp formulas with not > and > or/XOR > -> > <->)',
-                        'models: all shapes up to N, every 0<=min<=max<=k with max>=1, constraints over the eight logical operators; names are the placeholders F0..Fn',
+                        'models: all shapes up to N, every 0<=min<=max<=k with max>=1, constraints over the eight logical operators; names are the placeholders F0..Fn and, for every (shape, cards), one of %d lists of identifier-like names that contain one another, are pieces of the connective words, or differ by case / underscore (SPLOT also blanks, hyphens, non-ASCII); names equal to a keyword of the target format or to an operator name of the constraint language are outside the claim (the formats cannot quote them)' % (len(NAME_LISTS) + len(SPLOT_ONLY_LISTS)),
                         'the 2^n selections are decided by one z3 query per program (source semantics xor interpreted export, unsat)',
                         'AST.get_clauses (flamapy.core) is executed as is'],
         'coverage': {'functions_encoded': ['SPLOTWriter.transform', 'splot_writer.fm_to_splot/add_features/add_constraints', 'PLWriter.transform', 'pl_writer.to_exp/get_relation_formula/get_*_formula/get_constraint_formula',
